@@ -40,25 +40,55 @@ IMMUTABLE_RESULT = {"len", "int", "float", "str", "bool", "abs", "max", "min", "
 
 
 class Val:
-    __slots__ = ("own", "elem", "imm")
+    """own: owners of the object itself; elem: owners of its elements (one level down);
+    deep: owners of anything further down.  `isdict`: known to be a dict (iteration yields
+    immutable keys)."""
+    __slots__ = ("own", "elem", "deep", "imm", "isdict", "strv")
 
-    def __init__(self, own=(), elem=(), imm=False):
+    def __init__(self, own=(), elem=(), deep=(), imm=False, isdict=False, strv=False):
         self.own = frozenset(own)
         self.elem = frozenset(elem)
-        self.imm = imm          # provably immutable (str, number, tuple literal of those)
+        self.deep = frozenset(deep)
+        self.imm = imm
+        self.isdict = isdict
+        self.strv = strv        # known to be a str
 
     def join(self, o):
-        return Val(self.own | o.own, self.elem | o.elem, self.imm and o.imm)
+        return Val(self.own | o.own, self.elem | o.elem, self.deep | o.deep,
+                   self.imm and o.imm, self.isdict and o.isdict, self.strv and o.strv)
+
+    def down(self):
+        """value of an element"""
+        return Val(self.elem, self.deep, self.deep)
+
+    def all(self):
+        return self.own | self.elem | self.deep
 
     def __eq__(self, o):
-        return self.own == o.own and self.elem == o.elem and self.imm == o.imm
+        return (self.own == o.own and self.elem == o.elem and self.deep == o.deep
+                and self.imm == o.imm and self.isdict == o.isdict and self.strv == o.strv)
 
     def __repr__(self):
-        return f"Val(own={sorted(self.own)}, elem={sorted(self.elem)}, imm={self.imm})"
+        return (f"Val(own={sorted(self.own)}, elem={sorted(self.elem)}, "
+                f"deep={sorted(self.deep)}, imm={self.imm})")
+
+
+def container(items, isdict=False):
+    """a fresh container holding the given values"""
+    elem, deep = frozenset(), frozenset()
+    for v in items:
+        elem |= v.own
+        deep |= v.elem | v.deep
+    return Val((), elem, deep, isdict=isdict)
+
+
+def owned(tag):
+    return Val({tag}, {tag + "/*"}, {tag + "/*"})
 
 
 FRESH = Val()
 IMM = Val(imm=True)
+STR = Val(imm=True, strv=True)
 
 
 class Summary:
@@ -114,12 +144,13 @@ class Analyzer:
         for i, p in enumerate(params):
             if is_method and i == 0:
                 continue
-            env[p] = Val({"PARAM:" + p}, {"PARAM:" + p})
+            env[p] = owned("PARAM:" + p)
         if a.vararg:
-            env[a.vararg.arg] = Val((), {"PARAM:*" + a.vararg.arg})
+            env[a.vararg.arg] = Val((), {"PARAM:*" + a.vararg.arg},
+                                    {"PARAM:*" + a.vararg.arg + "/*"})
         if a.kwarg:
             # the dict itself is created for this call; its values are the caller's
-            env[a.kwarg.arg] = Val((), {"KW:*"})
+            env[a.kwarg.arg] = Val((), {"KW:*"}, {"KW:*/*"}, isdict=True)
             self.kwname = a.kwarg.arg
         else:
             self.kwname = None
@@ -160,12 +191,13 @@ class Analyzer:
             t = st.target
             if isinstance(t, ast.Name):
                 cur = env.get(t.id, FRESH)
-                if rhs.imm or cur.imm or self.rhs_forces_immutable(st.value):
+                if cur.imm or (isinstance(st.op, ast.Add)
+                               and (rhs.strv or self.rhs_forces_immutable(st.value))):
                     # the left-hand side must be a str/number/tuple: a rebinding
                     env[t.id] = IMM
                 else:
                     self.sink(cur.own, st, f"augmented assignment `{norm_src(st)[:60]}`")
-                    env[t.id] = Val(cur.own, cur.elem | rhs.elem | rhs.own)
+                    env[t.id] = Val(cur.own, cur.elem | rhs.elem, cur.deep | rhs.deep)
             else:
                 base = self.ev(t.value, env)
                 self.sink(base.own, st, f"in-place update `{norm_src(st)[:60]}`")
@@ -191,8 +223,8 @@ class Analyzer:
         elif isinstance(st, (ast.For, ast.While)):
             if isinstance(st, ast.For):
                 it = self.ev(st.iter, env)
-                # loop variable: an element of the iterable
-                self.assign(st.target, Val(it.elem, it.elem, imm=False), env, st)
+                # loop variable: an element of the iterable (a key, for a dict)
+                self.assign(st.target, IMM if it.isdict else it.down(), env, st)
             else:
                 self.ev(st.test, env)
             for _ in range(3):
@@ -233,9 +265,9 @@ class Analyzer:
 
     @staticmethod
     def rhs_forces_immutable(node):
-        """`x += <str/number/tuple expression>` can only succeed for an immutable x ... except
-        that a list accepts `+= <tuple>`; only str and numbers are taken as decisive."""
-        if isinstance(node, ast.Constant) and isinstance(node.value, (str, int, float, complex)):
+        """`x += <string expression>` can only succeed for a str x: a rebinding.  (Numbers do
+        not force anything: `array += 1` is an in-place update.)"""
+        if isinstance(node, ast.Constant) and isinstance(node.value, str):
             return True
         if isinstance(node, ast.JoinedStr):
             return True
@@ -251,21 +283,22 @@ class Analyzer:
             for t in target.elts:
                 if isinstance(t, ast.Starred):
                     t = t.value
-                self.assign(t, Val(v.elem | v.own, v.elem), env, st)
+                self.assign(t, IMM if v.imm else v.down(), env, st)
         elif isinstance(target, ast.Subscript):
             base = self.ev(target.value, env)
             self.sink(base.own, st, f"store `{norm_src(st)[:60]}`")
             # the container now holds v
             if isinstance(target.value, ast.Name) and target.value.id in env:
                 b = env[target.value.id]
-                env[target.value.id] = Val(b.own, b.elem | v.own | v.elem, False)
+                env[target.value.id] = Val(b.own, b.elem | v.own, b.deep | v.elem | v.deep,
+                                           False, b.isdict)
         elif isinstance(target, ast.Attribute):
             base = self.ev(target.value, env)
             if not (isinstance(target.value, ast.Name) and target.value.id == self.selfname):
                 self.sink(base.own, st, f"attribute store `{norm_src(st)[:60]}`")
 
     def sink(self, owners, node, how):
-        owners = {o for o in owners}
+        owners = {o for o in owners if o not in ("SELFOBJ",)}
         if not owners:
             return
         for o in owners:
@@ -290,13 +323,13 @@ class Analyzer:
         return FRESH
 
     def ev_Constant(self, node, env):
-        return IMM
+        return STR if isinstance(node.value, str) else IMM
 
     def ev_JoinedStr(self, node, env):
         for v in node.values:
             if isinstance(v, ast.FormattedValue):
                 self.ev(v.value, env)
-        return IMM
+        return STR
 
     def ev_Name(self, node, env):
         if node.id in env:
@@ -304,24 +337,25 @@ class Analyzer:
         if node.id == self.selfname:
             return Val({"SELFOBJ"})
         if node.id in GLOBAL_MUTABLES.get(self.cur_rel, ()):
-            return Val({"GLOBAL:" + node.id}, {"GLOBAL:" + node.id})
+            return owned("GLOBAL:" + node.id)
         return FRESH
 
     def ev_Attribute(self, node, env):
         src = unparse(node)
         if src.startswith(self.selfname + ".fd.") or src == self.selfname + ".fd":
-            return Val({"FD"}, {"FD"})
-        if isinstance(node.value, ast.Name) and node.value.id == self.selfname:
+            return owned("FD")
+        if isinstance(node.value, ast.Name) and node.value.id == self.selfname \
+                and self.selfname not in env:
             if node.attr == "data":
-                return Val({"CACHEDICT"}, {"CACHE:*"})
-            return Val({"SELF:" + node.attr}, {"SELF:" + node.attr})
-        base = self.ev(node.value, env)
+                return Val({"CACHEDICT"}, {"CACHE:*"}, {"CACHE:*/*"}, isdict=True)
+            return owned("SELF:" + node.attr)
         if node.attr == "data" and isinstance(node.value, ast.Name) \
                 and node.value.id in ("rel",):
-            return Val({"CACHEDICT"}, {"CACHE:*"})
+            return Val({"CACHEDICT"}, {"CACHE:*"}, {"CACHE:*/*"}, isdict=True)
+        base = self.ev(node.value, env)
         if node.attr in ("shape", "ndim", "size", "dtype", "nbytes", "__name__", "__code__"):
             return IMM
-        return Val(base.own, base.elem)
+        return Val(base.own, base.elem, base.deep)
 
     def ev_Subscript(self, node, env):
         # self["key"]
@@ -329,15 +363,21 @@ class Analyzer:
                 and node.value.id not in env:
             self.ev(node.slice, env)
             k = node.slice.value if isinstance(node.slice, ast.Constant) else "*"
-            return Val({f"CACHE:{k}"}, {f"CACHE:{k}"})
+            return owned(f"CACHE:{k}")
         base = self.ev(node.value, env)
         self.ev(node.slice, env)
         if "CACHEDICT" in base.own:
             k = node.slice.value if isinstance(node.slice, ast.Constant) else "*"
-            return Val({f"CACHE:{k}"}, {f"CACHE:{k}"})
+            return owned(f"CACHE:{k}")
         if base.imm:
             return IMM
-        return Val((base.own - {"CACHEDICT"}) | base.elem, base.elem)
+        # an element of a container, or a view of an array: may share storage with either
+        if isinstance(node.slice, ast.Slice) or (isinstance(node.slice, ast.Tuple) and any(
+                isinstance(e, ast.Slice) for e in node.slice.elts)):
+            return Val(base.own | base.elem, base.elem | base.deep, base.deep)
+        if base.isdict:
+            return base.down()
+        return Val(base.own | base.elem, base.elem | base.deep, base.deep)
 
     def ev_Slice(self, node, env):
         for x in (node.lower, node.upper, node.step):
@@ -347,37 +387,32 @@ class Analyzer:
 
     def ev_Tuple(self, node, env):
         vs = [self.ev(e, env) for e in node.elts]
-        elem = frozenset().union(*[v.own | v.elem for v in vs]) if vs else frozenset()
-        return Val((), elem, imm=not elem and all(v.imm for v in vs))
+        c = container(vs)
+        return Val((), c.elem, c.deep, imm=not c.all() and all(v.imm for v in vs))
 
     def ev_List(self, node, env):
-        vs = [self.ev(e, env) for e in node.elts]
-        elem = frozenset().union(*[v.own | v.elem for v in vs]) if vs else frozenset()
-        return Val((), elem)
+        return container([self.ev(e, env) for e in node.elts])
 
     ev_Set = ev_List
 
     def ev_Dict(self, node, env):
-        elem = frozenset()
+        vals = []
         for k, v in zip(node.keys, node.values):
             if k is not None:
                 self.ev(k, env)
-            vv = self.ev(v, env)
-            elem |= vv.own | vv.elem
-        return Val((), elem)
+                vals.append(self.ev(v, env))
+            else:
+                vals.append(self.ev(v, env).down())    # **mapping
+        return container(vals, isdict=True)
 
-    def comp(self, node, env, elts):
+    def comp(self, node, env, elts, isdict=False):
         e = dict(env)
         for g in node.generators:
             it = self.ev(g.iter, e)
-            self.assign(g.target, Val(it.elem, it.elem), e, node)
+            self.assign(g.target, IMM if it.isdict else it.down(), e, node)
             for c in g.ifs:
                 self.ev(c, e)
-        elem = frozenset()
-        for x in elts:
-            v = self.ev(x, e)
-            elem |= v.own | v.elem
-        return Val((), elem)
+        return container([self.ev(x, e) for x in elts], isdict=isdict)
 
     def ev_ListComp(self, node, env):
         return self.comp(node, env, [node.elt])
@@ -386,13 +421,21 @@ class Analyzer:
     ev_GeneratorExp = ev_ListComp
 
     def ev_DictComp(self, node, env):
-        return self.comp(node, env, [node.key, node.value])
+        e = dict(env)
+        for g in node.generators:
+            it = self.ev(g.iter, e)
+            self.assign(g.target, IMM if it.isdict else it.down(), e, node)
+            for c in g.ifs:
+                self.ev(c, e)
+        self.ev(node.key, e)
+        return container([self.ev(node.value, e)], isdict=True)
 
     def ev_BinOp(self, node, env):
         a, b = self.ev(node.left, env), self.ev(node.right, env)
         if isinstance(node.op, ast.Add):
             # list concatenation keeps the elements
-            return Val((), a.elem | b.elem, imm=a.imm and b.imm)
+            return Val((), a.elem | b.elem, a.deep | b.deep, imm=a.imm and b.imm,
+                       strv=a.strv or b.strv)
         return Val((), (), imm=a.imm and b.imm)
 
     def ev_UnaryOp(self, node, env):
@@ -436,7 +479,7 @@ class Analyzer:
                               "reorders its input array in place")
             if k.arg == "copy" and isinstance(k.value, ast.Constant) and k.value.value is False \
                     and args:
-                return Val(args[0].own, args[0].elem)
+                return Val(args[0].own, args[0].elem, args[0].deep)
         if fsrc in NP_WRITERS and args:
             self.sink(args[NP_WRITERS[fsrc]].own, node, f"`{fsrc}` writes into its argument")
             return FRESH
@@ -444,52 +487,85 @@ class Analyzer:
         if self.kwname and fsrc == self.kwname + ".get" and node.args \
                 and isinstance(node.args[0], ast.Constant):
             d = args[1] if len(args) > 1 else FRESH
-            o = "KW:" + str(node.args[0].value)
-            return Val({o} | d.own, {o} | d.elem)
+            return owned("KW:" + str(node.args[0].value)).join(Val(d.own, d.elem, d.deep))
         if isinstance(node.func, ast.Attribute):
             recv = self.ev(node.func.value, env)
             meth = node.func.attr
+            rsrc = unparse(node.func.value)
             if meth in MUTATING_METHODS and not recv.imm \
-                    and not unparse(node.func.value).startswith(("np.", "os.", "re.", "json.",
-                                                                 "sys.", "glob.", "sc.")):
+                    and not rsrc.startswith(("np.", "os.", "re.", "json.", "sys.", "glob.",
+                                             "sc.", "sp.")):
                 self.sink(recv.own, node, f"mutating call `{norm_src(node)[:60]}`")
-                if meth in ("append", "extend", "insert", "add", "update", "setdefault") \
-                        and isinstance(node.func.value, ast.Name) \
+                added = None
+                if meth in ("append", "add") and args:
+                    added = container([args[0]])
+                elif meth == "insert" and len(args) > 1:
+                    added = container([args[1]])
+                elif meth == "setdefault" and len(args) > 1:
+                    added = container([args[1]])
+                elif meth in ("extend", "update") and args:
+                    added = Val((), args[0].elem, args[0].deep)
+                if added is not None and isinstance(node.func.value, ast.Name) \
                         and node.func.value.id in env:
-                    add = frozenset().union(*[a.own | a.elem for a in args]) if args \
-                        else frozenset()
                     b = env[node.func.value.id]
-                    env[node.func.value.id] = Val(b.own, b.elem | add)
-                if meth in ("pop", "setdefault"):
-                    return Val(recv.elem, recv.elem)
+                    env[node.func.value.id] = Val(b.own, b.elem | added.elem,
+                                                  b.deep | added.deep, False, b.isdict)
+                if meth == "pop":
+                    return recv.down()
+                if meth == "setdefault":
+                    d = args[1] if len(args) > 1 else FRESH
+                    return recv.down().join(Val(d.own, d.elem, d.deep))
                 return FRESH
-            if meth in ("copy", "astype", "flatten", "tolist"):
-                return Val((), recv.elem if meth in ("copy", "tolist") else ())
-            if meth in ("keys", "values", "items"):
-                return Val((), recv.elem | ({"CACHE:*"} if "CACHEDICT" in recv.own else set()))
-            if meth == "get" and not fsrc.startswith(("os.", "np.")):
+            if meth in ("copy", "tolist"):
+                return Val((), recv.elem, recv.deep, isdict=recv.isdict)
+            if meth in ("astype", "flatten"):
+                return FRESH
+            if meth == "keys":
+                return Val((), (), ())      # keys are immutable
+            if meth == "values":
+                return Val((), recv.elem, recv.deep)
+            if meth == "items":
+                return Val((), (), recv.elem | recv.deep)   # tuples (key, value)
+            if meth == "get" and not rsrc.startswith(("os.", "np.")):
                 d = args[1] if len(args) > 1 else FRESH
-                return Val(recv.elem | d.own, recv.elem | d.elem)
-            if meth in ("reshape", "transpose", "view", "ravel", "squeeze", "swapaxes"):
-                return Val(recv.own, recv.elem)
+                return recv.down().join(Val(d.own, d.elem, d.deep))
+            if meth in ("reshape", "transpose", "view", "ravel", "squeeze", "swapaxes",
+                        "as_mutable", "as_immutable", "conj", "conjugate"):
+                return Val(recv.own, recv.elem, recv.deep)
             if meth in ("split", "strip", "replace", "join", "format", "lower", "upper",
                         "startswith", "endswith", "count", "index", "isdigit", "item",
-                        "min", "max", "sum", "mean", "match", "group", "search"):
-                return IMM if meth not in ("split",) else FRESH
+                        "min", "max", "sum", "mean", "match", "group", "search", "rstrip",
+                        "lstrip", "isatty"):
+                return IMM if meth != "split" else FRESH
         if fsrc in VIEW_FUNCS and args:
-            return Val(args[0].own, args[0].elem)
+            return Val(args[0].own, args[0].elem, args[0].deep)
         if fsrc == "np.einsum" and len(node.args) == 2:
-            return Val(args[1].own, args[1].elem)     # single operand: may return a view
+            return Val(args[1].own, args[1].elem, args[1].deep)  # single operand: maybe a view
         if fsrc in ("np.array", "np.copy", "np.stack", "np.concatenate", "np.append",
-                    "np.zeros", "np.ones", "np.zeros_like", "np.where", "np.sort"):
+                    "np.zeros", "np.ones", "np.zeros_like", "np.where", "np.sort",
+                    "np.argmin", "np.abs", "np.sum", "np.min", "np.max", "np.arange"):
             return FRESH
         if fsrc in COPY_CONTAINER and args:
-            return Val((), args[0].elem)
+            if fsrc in ("sorted", "set", "frozenset") or args[0].isdict and fsrc != "dict":
+                # elements only (for a dict: its keys)
+                if args[0].isdict:
+                    return FRESH
+            return Val((), args[0].elem, args[0].deep, isdict=(fsrc == "dict"))
         if fsrc in COPY_CONTAINER:
-            return FRESH
+            return Val(isdict=(fsrc == "dict"))
+        if fsrc == "zip":
+            deep = frozenset()
+            for a in args:
+                deep |= a.elem | a.deep
+            return Val((), (), deep)          # tuples of elements
+        if fsrc == "enumerate" and args:
+            return Val((), (), args[0].elem | args[0].deep)
         if fsrc in ELEM_PASS:
-            elem = frozenset().union(*[a.elem for a in args]) if args else frozenset()
-            return Val((), elem)
+            elem, deep = frozenset(), frozenset()
+            for a in args:
+                elem |= a.elem
+                deep |= a.deep
+            return Val((), elem, deep)
         if fsrc in IMMUTABLE_RESULT:
             return IMM
         # repository functions
@@ -507,22 +583,28 @@ class Analyzer:
                 if k in plist:
                     bound[k] = v
             for p, (mnode, how) in summ.mutates.items():
-                if p in bound:
-                    self.sink(bound[p].own, node,
-                              f"`{fsrc}(...)` mutates its parameter `{p}` ({how})")
-            # return aliasing
-            own, elem = set(), set()
-            for o in summ.ret.own:
-                if o.startswith("PARAM:") and o[6:] in bound:
-                    own |= bound[o[6:]].own
-                elif not o.startswith("PARAM:"):
-                    own.add(o)
-            for o in summ.ret.elem:
-                if o.startswith("PARAM:") and o[6:] in bound:
-                    elem |= bound[o[6:]].own | bound[o[6:]].elem
-                elif not o.startswith("PARAM:"):
-                    elem.add(o)
-            return Val(own, elem)
+                nested = p.endswith("/*")
+                base = p[:-2] if nested else p
+                if base in bound:
+                    o = (bound[base].elem | bound[base].deep) if nested else bound[base].own
+                    self.sink(o, node, f"`{fsrc}(...)` mutates "
+                              f"{'objects nested in ' if nested else ''}its parameter "
+                              f"`{base}` ({how})")
+
+            def inst(tags, level):
+                out = set()
+                for o in tags:
+                    if o.startswith("PARAM:"):
+                        nested = o.endswith("/*")
+                        base = o[6:-2] if nested else o[6:]
+                        if base in bound:
+                            b = bound[base]
+                            out |= (b.elem | b.deep) if nested else b.own
+                    else:
+                        out.add(o)
+                return out
+            return Val(inst(summ.ret.own, 0), inst(summ.ret.elem, 1), inst(summ.ret.deep, 2),
+                       isdict=summ.ret.isdict)
         return FRESH
 
     def resolve(self, fsrc):
